@@ -124,10 +124,20 @@ def hGrainTaucrit : Handler := do
   let m ← getN; let sed ← getF
   pure (outF (if m == 0 then Grain.taucritBinF32 sed else Grain.taucritPoly sed))
 
+/-- `sed.ladis kkind k0 k1 zs v0 v1 dt xi x0` : K profile as in `EnvSpec.profile`, v(x) = v0 + v1*x -/
+def hLadis : Handler := do
+  let kk ← getN; let k0 ← getF; let k1 ← getF; let zs ← getF
+  let v0 ← getF; let v1 ← getF; let dt ← getF; let xi ← getF; let x0 ← getF
+  let K : Float → Float := fun z => match kk with
+    | 0 => k0
+    | 1 => k0 + k1 * z
+    | _ => if z < zs then k0 else k1
+  pure (outF (Sed.ladis K (fun x => v0 + v1 * x) dt xi x0))
+
 def ibmHandlers : List (String × Handler) :=
   [("sed.update", hSedUpdate), ("mine.update", hMineUpdate), ("sed.tau", hSedTau),
    ("egg.update", hEgg), ("lice.update", hLice), ("larva.update", hLarva),
    ("sandeel.z", hSandeelZ), ("eel.z", hEelZ), ("shrimp.vert", hShrimpVert),
-   ("shrimp.growth", hShrimpGrowth), ("vps.z", hVpsZ), ("vps.update", hVpsUpdate), ("mem.stuck", hMemStuck), ("grain.cell", hGrainCell), ("grain.taucrit", hGrainTaucrit)]
+   ("shrimp.growth", hShrimpGrowth), ("vps.z", hVpsZ), ("vps.update", hVpsUpdate), ("mem.stuck", hMemStuck), ("grain.cell", hGrainCell), ("grain.taucrit", hGrainTaucrit), ("sed.ladis", hLadis)]
 
 end Driver
